@@ -441,6 +441,7 @@ type Contract struct {
 	Auto       bool // generated by a sweep directive: uncontracted callees are opaque, never inlined
 	NoTypeInv  bool
 	InlineCallees map[string]bool // callees (by name) inlined in this unit instead of using their contract
+	NoUnfold map[string]bool // recursive spec functions that stay folded in this unit (their definition is not needed)
 	AbstractPtrs bool // escaping interior pointers become unknown pointers
 	NoSafety   bool // safety obligations (index, nil, slice, ...) of this unit are not emitted: not decided
 	OvfCheck   bool
@@ -457,6 +458,7 @@ type Pred struct {
 	Src    string
 	Rec    bool
 	Ret    string // recfun: "float" or "int"; "" for predicates
+	Masked bool   // recfun evaluated over the heaps restricted to the regions that existed at the boundary (function entry / call time)
 }
 
 type OnCall struct {
@@ -499,7 +501,7 @@ type SpecDB struct {
 
 var clauseKeywords = map[string]bool{"func": true, "requires": true, "ensures": true, "modifies": true, "allocbound": true,
 	"loop": true, "mode": true, "trusted": true, "prop": true, "pred": true, "lemma": true, "pure": true, "inline": true,
-	"split": true, "noverify": true, "ghost": true, "timeout": true, "opaque": true, "recpred": true, "recfun": true, "oncall": true, "sweep": true, "typeinv": true, "notypeinv": true, "abstractptrs": true, "inlinecallees": true, "nosafety": true, "ovfcheck": true, "assumeinv": true, "defines": true, "assume-unreachable": true, "wraparith": true}
+	"split": true, "noverify": true, "ghost": true, "timeout": true, "opaque": true, "recpred": true, "recfun": true, "oncall": true, "sweep": true, "typeinv": true, "notypeinv": true, "abstractptrs": true, "nounfold": true, "inlinecallees": true, "nosafety": true, "ovfcheck": true, "assumeinv": true, "defines": true, "assume-unreachable": true, "wraparith": true}
 
 // LoadSpecs parses every verif_contracts*.go in dir (package name pkg).
 func LoadSpecs(db *SpecDB, dir, pkg string) error {
@@ -627,14 +629,19 @@ func loadSpecFile(db *SpecDB, file, pkg string) error {
 				return fmt.Errorf("%s:%d: %v", file, rl.line, err)
 			}
 			ret := ""
+			masked := false
 			if kw == "recfun" {
 				// recfun Name(a, b): float = expr   (recursive spec function with a numeric value)
 				ret = strings.TrimSpace(strings.TrimPrefix(strings.TrimSpace(rest[j+1:k]), ":"))
+				if strings.HasSuffix(ret, " masked") {
+					ret = strings.TrimSpace(strings.TrimSuffix(ret, " masked"))
+					masked = true
+				}
 				if ret != "float" && ret != "int" {
 					return fmt.Errorf("%s:%d: recfun needs a result sort (float or int)", file, rl.line)
 				}
 			}
-			db.Preds[name] = &Pred{Name: name, Params: params, Body: e, Src: rest[k+1:], Rec: kw != "pred", Ret: ret}
+			db.Preds[name] = &Pred{Name: name, Params: params, Body: e, Src: rest[k+1:], Rec: kw != "pred", Ret: ret, Masked: masked}
 		case "lemma":
 			cur = nil
 			i := strings.Index(rest, ":")
@@ -675,6 +682,13 @@ func loadSpecFile(db *SpecDB, file, pkg string) error {
 				}
 				for _, n := range strings.Fields(rest) {
 					cur.InlineCallees[n] = true
+				}
+			case "nounfold":
+				if cur.NoUnfold == nil {
+					cur.NoUnfold = map[string]bool{}
+				}
+				for _, n := range strings.Fields(rest) {
+					cur.NoUnfold[n] = true
 				}
 			case "abstractptrs":
 				cur.AbstractPtrs = true
